@@ -262,9 +262,9 @@ class simulate_time_course:
 
 @contract("mxlpy.simulator:Simulator._initialise_integrator")
 class initialise_integrator:
-    trusted = "builds the integrator object (symbolic Jacobian, lambdify, integrator constructor): outside the deductive part; only the frame is used - it writes the integrator field"
+    trusted = "builds the integrator object (symbolic Jacobian, lambdify, integrator constructor): outside the deductive part; only the frame is used - it stores a newly constructed integrator in the integrator field"
     may_raise = (Exception,)
-    ensures = lambda self, result: True
+    ensures = lambda self, result: fresh(self.integrator)
     modifies = lambda self: [field(self, "integrator")]
 
 
@@ -281,6 +281,7 @@ class update_variables_clock:
         implies(old(self.variables is None), self._time_shift is old(self._time_shift)),
         implies(old(self.variables is not None), self._time_shift is not None and self._time_shift == old(reached(self))),
         fresh(self.y0),
+        fresh(self.integrator),
         forall(lambda k: implies(k in variables, k in self.y0 and self.y0[k] is variables[k]), "val"),
         # nothing simulated since the last restart: earlier overrides are kept
         implies(
@@ -289,3 +290,78 @@ class update_variables_clock:
         ),
     ]
     modifies = lambda self, variables: [field(self, "y0"), field(self, "_time_shift"), field(self, "integrator")]
+
+
+# ----------------------------------------------------------------------------- results and steady state (C04 / C15)
+# get_result: a recorded failure is what the caller gets ("absence of a steady state is
+# reported as failure", C15); a Simulation is only handed out when nothing failed, and it
+# holds exactly the recorded segments and their parameter snapshots.
+
+
+@contract("mxlpy.simulator:Simulator.get_result")
+class get_result:
+    requires = lambda self: Inv(self)
+    ensures = lambda self, result: [
+        fresh(result),
+        implies(len(self._errors) > 0, result.value is self._errors[0]),
+        implies(
+            len(self._errors) == 0 and (self.variables is None or self.simulation_parameters is None),
+            has_type(result.value, "IntegrationFailure"),
+        ),
+        implies(
+            len(self._errors) == 0 and self.variables is not None and self.simulation_parameters is not None,
+            has_type(result.value, "Simulation")
+            and result.value.raw_variables is self.variables
+            and result.value.raw_parameters is self.simulation_parameters
+            and result.value.model is self.model,
+        ),
+        unchanged(self._errors),
+    ]
+    modifies = lambda self: []
+
+
+@contract("mxlpy.integrators.abstract:AbstractIntegrator.integrate_to_steady_state")
+class integrator_integrate_to_steady_state:
+    trusted = "abstract method of the integrator protocol (the shipped Scipy implementation is verified under C15, contracts/steady_state.py): returns a Result"
+    ensures = lambda self, tolerance, rel_norm, result: has_type(result, "Result")
+    modifies = lambda self, tolerance, rel_norm: [self]
+
+
+@contract("mxlpy.simulator:Simulator.simulate_to_steady_state")
+class simulate_to_steady_state:
+    requires = lambda self, tolerance, rel_norm: Inv(self)
+    may_raise = (Exception,)
+    ensures = lambda self, tolerance, rel_norm, result: [
+        result is self,
+        Inv(self),
+        # an earlier failure blocks the simulator
+        implies(
+            old(len(self._errors)) > 0,
+            self.variables is old(self.variables) and unchanged(self._errors) and self._time_shift is old(self._time_shift),
+        ),
+        # a failed search is recorded as exactly one failure and adds no segment
+        implies(
+            old(len(self._errors)) == 0 and len(self._errors) > 0,
+            len(self._errors) == 1 and self.variables is old(self.variables),
+        ),
+        # a successful search adds one segment and restarts the clock at its (absolute) end,
+        # so that a later simulate() continues from the steady state
+        implies(
+            old(len(self._errors)) == 0 and len(self._errors) == 0,
+            self.variables is not None
+            and len(self.variables) == (1 if old(self.variables is None) else old(len(self.variables)) + 1)
+            and self._time_shift is not None
+            and self._time_shift == reached(self),
+        ),
+    ]
+    modifies = lambda self, tolerance, rel_norm: [
+        field(self, "variables"),
+        field(self, "simulation_parameters"),
+        field(self, "y0"),
+        field(self, "_time_shift"),
+        field(self, "integrator"),
+        self._errors,
+        self.integrator,
+        maybe(self.variables),
+        maybe(self.simulation_parameters),
+    ]
